@@ -55,6 +55,8 @@ func coqOp0(o Op) string {
 		return fmt.Sprintf("ExecResult %s", lib.ZU(o.E))
 	case "NextBlock":
 		return "NextBlock"
+	case "Migrate":
+		return "Migrate"
 	case "SetParams":
 		return fmt.Sprintf("SetParams (P %s %s %s %s 0)", lib.ZU(o.Params[0]), lib.ZU(o.Params[1]), lib.ZU(o.Params[2]), lib.ZU(o.Params[3]))
 	}
